@@ -449,6 +449,10 @@ func (e *Exec) frameCheck(comp, ref string) {
 	var alts []string
 	if ref != "" {
 		alts = append(alts, "(>= "+ref+" "+e.entryW+")")
+		if strings.HasPrefix(comp, "E|") {
+			// the nil backing array has no elements
+			alts = append(alts, "(= "+ref+" 0)")
+		}
 	}
 	for _, m := range e.mods {
 		if m.comp != comp {
